@@ -2,7 +2,7 @@ use crate::cache::CodeCache;
 use crate::cart::Header;
 use crate::cpu::{self, Registers};
 use crate::interpreter;
-use crate::mem::{MemoryAreas, can_dynarec, memory_write_byte, memory_write_word};
+use crate::mem::{MemoryAreas, can_dynarec, memory_write_byte, memory_write_word, straddles_rom_region};
 use crate::timing::{ClockCycles, MachineCycles};
 use std::fs::File;
 
@@ -141,7 +141,7 @@ impl Core {
       // Since RAM is invalidated by writes, it's messy to compile and track
       // code found in RAM. Only ROM code should be recompiled, the rest
       // should be interpreted.
-      if can_dynarec(ip) {
+      if can_dynarec(ip) && !straddles_rom_region(ip, self.memory.as_ptr()) {
         // the same address holds different code under different ROM banks
         self.cache.set_rom_bank(self.memory.get_rom_bank());
         let address = {
